@@ -5,6 +5,7 @@
    Session.TlsEnabled) are separate fields of [persist] that survive reconnects. *)
 From Coq Require Import List ZArith NArith Bool.
 From XV Require Import Lib.Sx Model.Session Model.SessionSpec Proofs.SessionP Proofs.SessionSpecP.
+From XV Require Import Model.Gate Proofs.GateP.
 Import ListNotations.
 
 (* For every history of connections (any scripts, any TLS outcomes, any state left
@@ -58,6 +59,42 @@ Proof.
     + rewrite Hx in Hc. specialize (Hc eq_refl). discriminate.
 Qed.
 
+(* What the APPLICATION sends (Client.Send / SendRaw / SendIQ and the stream-management resend all end
+   in sendWithWriter, behind the send gate of Model/Gate.v), from any goroutine, at any moment of any
+   history of connections on one Client -- while connect() is negotiating on the new clear-text
+   connection, after it failed, after it succeeded: with Insecure = false nothing is ever written on
+   a connection that is not TLS (g_tls is the ghost state of the real channel, fed by the requests
+   of Session.connect).  [g]: the gate as earlier connections left it; a new Client is gate0. *)
+Theorem C04_sends_gated : forall cfg p g cs,
+  c_insecure cfg = false ->
+  (g_closed g = false -> g_conn g = true -> g_tls g = true) ->
+  Forall (Forall (fun r => r <> Written false)) (gate_conns cfg p g cs).
+Proof. intros cfg p g cs Hi Hg. apply gate_conns_no_clear; assumption. Qed.
+
+(* ... and whatever Insecure says, a send made while a connection attempt runs is refused, as are
+   those made after the attempt failed (the transport still holds that connection). *)
+Theorem C04_no_send_while_connecting : forall dial w r pl g,
+  exists meanwhile later,
+    snd (grun g (conn_trace dial w r pl)) = meanwhile ++ later /\
+    Forall (fun x => x = Refused) meanwhile /\ length later = pl_after pl /\
+    (r <> Ok -> Forall (fun x => x = Refused) later).
+Proof. intros. apply conn_trace_during_refused. Qed.
+
+(* WebSocket transport: authentication data is written only when the connection the opening
+   handshake ENDED on is TLS (unless Insecure); a wss:// address never ends on a clear-text
+   connection, whatever redirects the HTTP endpoint answers with. *)
+Theorem C04_ws_auth_only_over_tls : forall addr redirects b,
+  ws_connect false addr redirects = WAuth b -> b = true.
+Proof. intros addr redirects b. apply ws_connect_auth_tls. reflexivity. Qed.
+
+Theorem C04_wss_never_downgraded : forall insecure redirects,
+  ws_connect insecure Https redirects <> WAuth false.
+Proof. exact ws_connect_wss_never_clear. Qed.
+
+Theorem C04_ws_redirects_never_leave_tls : forall cur redirects n s,
+  ws_dial cur redirects n = Some s -> cur = Https \/ In Https redirects -> s = Https.
+Proof. intros cur redirects n s. apply ws_dial_no_downgrade. Qed.
+
 Example C04_example :
   let f0 := {| f_tls := TlsOffered; f_mechs := [mech_plain]; f_bind := false; f_sess := SessAbsent; f_sm := false |} in
   let cfg := {| c_insecure := false; c_resource := []; c_sm_resume := false; c_mechs := [mech_plain] |} in
@@ -67,6 +104,33 @@ Example C04_example :
   = [o false ROpen []; o false RStartTls [SHeader []; SFeatures f0]].
 Proof. reflexivity. Qed.
 
+(* a Client that lost a TLS session and reconnects; the peer withholds <proceed/>; two sends arrive
+   meanwhile (after the client's second request) and one after the attempt failed: all refused;
+   on the first connection the send after the negotiation went out inside TLS *)
+Example C04_gate_example :
+  let f0 := {| f_tls := TlsOffered; f_mechs := [mech_plain]; f_bind := true; f_sess := SessAbsent; f_sm := false |} in
+  let f1 := {| f_tls := TlsNone; f_mechs := [mech_plain]; f_bind := true; f_sess := SessAbsent; f_sm := false |} in
+  let cfg := {| c_insecure := false; c_resource := []; c_sm_resume := false; c_mechs := [mech_plain] |} in
+  let good := [SHeader []; SFeatures f0; SProceed; SHeader []; SFeatures f1; SSuccess; SHeader []; SFeatures f1;
+               SIq TResult (PlBind []) false] in
+  gate_conns cfg (fresh false) gate0
+    [({| k_dial := true; k_tls := true; k_script := good; k_traffic := 0 |}, {| pl_during := []; pl_after := 1%nat |});
+     ({| k_dial := true; k_tls := true; k_script := [SHeader []; SFeatures f0]; k_traffic := 0 |},
+      {| pl_during := [2; 2]%nat; pl_after := 1%nat |})]
+  = [[Written true]; [Refused; Refused; Refused]].
+Proof. reflexivity. Qed.
+
+Example C04_ws_example :
+  ws_connect false Https [Http] = WDialError /\ ws_connect false Https [Https] = WAuth true /\
+  ws_connect false Http [] = WNoTls /\ ws_connect true Http [] = WAuth false /\
+  ws_connect true Https [Https; Http] = WDialError.
+Proof. repeat split. Qed.
+
 Print Assumptions C04_no_cleartext.
 Print Assumptions C04_no_unverified.
 Print Assumptions C04_starttls_replies.
+Print Assumptions C04_sends_gated.
+Print Assumptions C04_no_send_while_connecting.
+Print Assumptions C04_ws_auth_only_over_tls.
+Print Assumptions C04_wss_never_downgraded.
+Print Assumptions C04_ws_redirects_never_leave_tls.
